@@ -1,0 +1,45 @@
+//go:build verif
+
+package eap
+
+import "sort"
+
+// Observation hooks for the verification harness in /verif (build tag "verif").
+// They only read unexported state; nothing in the library calls them.
+
+// VerifAkaAttr is a copy of the unexported fields of one EAP-AKA' attribute.
+type VerifAkaAttr struct {
+	Type     uint8
+	Length   uint8
+	Reserved uint16
+	Value    []byte
+}
+
+// VerifReserved returns the reserved field of the EAP-AKA' header.
+func (eapAkaPrime *EapAkaPrime) VerifReserved() uint16 { return eapAkaPrime.reserved }
+
+// VerifAttrs returns copies of all attributes, sorted by attribute type.
+func (eapAkaPrime *EapAkaPrime) VerifAttrs() []VerifAkaAttr {
+	out := make([]VerifAkaAttr, 0, len(eapAkaPrime.attributes))
+	for _, a := range eapAkaPrime.attributes {
+		out = append(out, VerifAkaAttr{
+			Type: uint8(a.attrType), Length: a.length, Reserved: a.reserved,
+			Value: append([]byte(nil), a.value...),
+		})
+	}
+	sort.Slice(out, func(i, j int) bool { return out[i].Type < out[j].Type })
+	return out
+}
+
+// VerifNewAkaRaw builds an EAP-AKA' value with the given unexported state.
+func VerifNewAkaRaw(subType EapAkaSubtype, reserved uint16, attrs []VerifAkaAttr) *EapAkaPrime {
+	e := NewEapAkaPrime(subType)
+	e.reserved = reserved
+	for _, a := range attrs {
+		e.attributes[EapAkaPrimeAttrType(a.Type)] = &EapAkaPrimeAttr{
+			attrType: EapAkaPrimeAttrType(a.Type), length: a.Length, reserved: a.Reserved,
+			value: append([]byte(nil), a.Value...),
+		}
+	}
+	return e
+}
